@@ -840,7 +840,7 @@ def relayout(rng, toks):
 WITNESSES = [
 ]
 
-# witnesses of the repaired defects (printer: F6 F6t FM1..FM9; parser: FM10): every fact must hold on them now
+# witnesses of the repaired printer defects (F6 F6t FM1..FM9): every fact must hold on them now
 REPAIRED = [
     "fn dsp(){ let x = 1\n match x { 0 => 1.0, _ => 2.0 } }\n",
     "type T = A | B(float)\nfn dsp(){ 1.0 }\n",
